@@ -390,6 +390,11 @@ func (s *Server) handleConn(ctx context.Context, conn *Conn, module *Module, pc 
 		// If returning an error, send the error to the client for display, too:
 		defer func() {
 			if err != nil {
+				// The client may still be writing (e.g. the rest of its filter
+				// rules after one we refused): keep consuming its output, or
+				// this write blocks forever on a transport with little
+				// buffering, with the client blocked on its own write.
+				go io.Copy(io.Discard, rd)
 				mpx.WriteMsg(rsyncwire.MsgError, fmt.Appendf(nil, "gokr-rsync [sender]: %v\n", err))
 			}
 		}()
